@@ -54,7 +54,7 @@ def close(a, b, rtol=1e-9, atol=1e-11):
     if a.shape != b.shape:
         return False
     both_nan = np.isnan(a) & np.isnan(b)
-    ok = np.abs(a - b) <= atol + rtol * np.maximum(np.abs(a), np.abs(b))
+    ok = (np.abs(a - b) <= atol + rtol * np.maximum(np.abs(a), np.abs(b))) | (a == b)
     return bool(np.all(ok | both_nan))
 
 
@@ -127,22 +127,39 @@ def check_spot(o, fields, wavelengths, num_rings, distribution, cls_name='SpotDi
         return [v(cls_name, 'reference-raises', f'centroid/radius: {type(e).__name__}: {e}', primary_listed=ri is not None, **ctx)]
     for i in range(len(fields)):
         ok_ref = None
+        nonfin = int(sum(np.sum(~(np.isfinite(sp[0]) & np.isfinite(sp[1]))) for sp in spots[i]))
         for k in cands:
-            cx, cy = np.mean(spots[i][k][0]), np.mean(spots[i][k][1])
+            fin = np.isfinite(spots[i][k][0]) & np.isfinite(spots[i][k][1])
+            if not np.any(fin):
+                continue
+            cx, cy = np.mean(spots[i][k][0][fin]), np.mean(spots[i][k][1][fin])
             if close([cen[i][0], cen[i][1]], [cx, cy]):
                 ok_ref = (cx, cy)
                 break
         if ok_ref is None:
-            out.append(v(cls_name, 'reference-wrong', f'field {i}: centroid is not the centroid of the primary-wavelength spot',
-                         primary_listed=ri is not None, **ctx))
+            if all(not np.any(np.isfinite(spots[i][k][0]) & np.isfinite(spots[i][k][1])) for k in cands):
+                continue                                   # no ray of the reference wavelength reaches the image: nothing to report
+            refs_have_nan = any(np.any(~(np.isfinite(spots[i][k][0]) & np.isfinite(spots[i][k][1]))) for k in cands)
+            if refs_have_nan and np.isnan(cen[i][0]):
+                out.append(v(cls_name, 'nan-poisoned', f'field {i}: centroid is NaN although rays reach the image '
+                             f'({nonfin} rays of this field failed)', nonfinite_rays=nonfin, **ctx))
+            else:
+                out.append(v(cls_name, 'reference-wrong', f'field {i}: centroid is not the centroid of the primary-wavelength spot',
+                             primary_listed=ri is not None, **ctx))
             continue
         cx, cy = ok_ref
         for j in range(len(wavelengths)):
-            r2 = (spots[i][j][0] - cx) ** 2 + (spots[i][j][1] - cy) ** 2
-            if not close(geo[i][j], np.sqrt(np.max(r2)) if not np.any(np.isnan(r2)) else np.nan):
-                out.append(v(cls_name, 'geometric-radius', f'field {i} wavelength {j}: {float(geo[i][j])!r} vs {float(np.sqrt(np.max(r2)))!r}', **ctx))
+            fin = np.isfinite(spots[i][j][0]) & np.isfinite(spots[i][j][1])
+            if not np.any(fin):
+                continue
+            r2 = (spots[i][j][0][fin] - cx) ** 2 + (spots[i][j][1][fin] - cy) ** 2
+            bad_kind = 'nan-poisoned' if not np.all(fin) else None
+            if not close(geo[i][j], np.sqrt(np.max(r2))):
+                out.append(v(cls_name, bad_kind or 'geometric-radius', f'field {i} wavelength {j}: {float(geo[i][j])!r} vs {float(np.sqrt(np.max(r2)))!r}',
+                             nonfinite_rays=int(np.sum(~fin)), **ctx))
             if not close(rms[i][j], np.sqrt(np.sum(r2) / len(r2))):
-                out.append(v(cls_name, 'rms-radius', f'field {i} wavelength {j}: {float(rms[i][j])!r} vs {float(np.sqrt(np.sum(r2) / len(r2)))!r}', **ctx))
+                out.append(v(cls_name, bad_kind or 'rms-radius', f'field {i} wavelength {j}: {float(rms[i][j])!r} vs {float(np.sqrt(np.sum(r2) / len(r2)))!r}',
+                             nonfinite_rays=int(np.sum(~fin)), **ctx))
     return out
 
 
@@ -216,12 +233,14 @@ def check_encircled(o, fields, wavelength, num_rays, distribution, num_points):
         cx, cy = np.mean(x[fin]), np.mean(y[fin])
         rad = np.sqrt((x - cx) ** 2 + (y - cy) ** 2)
         total = float(np.sum(en[fin]))
+        if not np.any(fin) or total == 0:
+            continue                                       # no ray reaches the image
         exp = np.array([np.sum(en[fin][rad[fin] <= r]) for r in r_step])
         raw.append({'x': fl(x), 'y': fl(y), 'e': fl(en), 'axis_lim': float(axis_lim), 'r': fl(r_step), 'ee': fl(e_step)})
         if len(r_step) != num_points:
             out.append(v('EncircledEnergy', 'samples', f'field {k}: {len(r_step)} radii for num_points={num_points}', **ctx))
         if not np.all(np.isfinite(r_step)) or not close(e_step, exp, rtol=1e-9, atol=1e-9):
-            out.append(v('EncircledEnergy', 'curve', f'field {k}: curve is not the energy within r of the centroid '
+            out.append(v('EncircledEnergy', 'nan-poisoned' if not np.all(fin) else 'curve', f'field {k}: curve is not the energy within r of the centroid '
                          f'(non-finite rays: {int(np.sum(~fin))}; last value {float(e_step[-1])!r}, total transmitted {total!r})',
                          nonfinite_rays=int(np.sum(~fin)), **ctx))
             continue
@@ -427,9 +446,10 @@ def check_field_curvature(o, wavelengths, num_points):
                 except np.linalg.LinAlgError:
                     exp[i] = np.nan
             raw.append({'plane': plane, 'got': fl(got), 'exp': fl(exp)})
-            if not close(got, exp, rtol=1e-6, atol=1e-7):
+            use = np.isfinite(exp) & (np.abs(exp) < 1e4)   # (nearly) parallel pairs have no crossing to speak of
+            if not close(got[use], exp[use], rtol=1e-6, atol=1e-7):
                 out.append(v('FieldCurvature', 'tangential' if plane == 0 else 'sagittal',
-                             f'wavelength {w}: differs from the crossing of the parabasal pair by up to {float(np.nanmax(np.abs(got - exp))):.3g}', **ctx))
+                             f'wavelength {w}: differs from the crossing of the parabasal pair by up to {float(np.nanmax(np.abs(got[use] - exp[use]))):.3g}', **ctx))
     return out, raw
 
 
@@ -598,3 +618,89 @@ def check_yybar(o):
     if len(segs) != len(exp) or any(not (close(s[0], e[0]) and close(s[1], e[1])) for s, e in zip(segs, exp)):
         return [v('YYbar', 'segments', 'plotted segments are not (chief, marginal) heights of consecutive surfaces')]
     return []
+
+
+# ----------------------------------------------------------------------------------------------
+# lens generation and the whole property on one lens
+# ----------------------------------------------------------------------------------------------
+def c12_spec(rng, aspheres=None, finite=None, nsurf=None):
+    """rotationally symmetric refracting lens with at least two y fields.  Paraboloids (k = -1) are replaced: the tracer's
+    conic intersection loses all precision for near-axial rays on them (a property-C02 matter that would mask C12)."""
+    import lensgen
+    asph = (rng.random() < 0.3) if aspheres is None else aspheres
+    allow = ['plane', 'standard', 'conic'] + (['even_asphere'] if asph else [])
+    spec = lensgen.gen_spec(rng, nsurf=nsurf or rng.choice([2, 3, 3, 4, 4, 5, 6]), allow=allow, mirrors=False, decenter=False,
+                            finite_object=finite)
+    for s in spec['surfaces']:
+        if s.get('conic') == -1.0:
+            s['conic'] = -0.7
+        s.pop('coating', None) if rng.random() < 0.5 else None
+    if len(spec['fields']) < 2 or max(f[0] for f in spec['fields']) == 0:
+        mf = rng.uniform(1.0, 8.0)
+        spec['fields'] = [[0.0, 0.0, 0.0, 0.0], [0.7 * mf, 0.0, 0.0, 0.0], [mf, 0.0, 0.0, 0.0]]
+    spec['has_asphere'] = any(s.get('type') == 'even_asphere' for s in spec['surfaces'])
+    return spec
+
+
+def explicit_lists(o, rng):
+    """explicit wavelength lists that differ from the lens's own: with / without the primary, primary at another index"""
+    own = own_wavelengths(o)
+    wp = float(o.primary_wavelength)
+    others = [w for w in (0.47, 0.51, 0.53, 0.6, 0.64, 0.68) if w not in own]
+    a, b = rng.sample(others, 2)
+    return {'with_primary_first': [wp, a], 'with_primary_last': [a, b, wp], 'without_primary_short': [a],
+            'without_primary_long': [a, b] + ([rng.choice(others)] if len(own) > 2 else [])}
+
+
+def oracle_lens(o, spec, rng, level=1):
+    """the whole property on one lens.  Returns (violations, counters)."""
+    import lensgen
+    out = []
+    cnt = {}
+    F = [tuple(map(float, f)) for f in o.fields.get_field_coords()]
+    W = own_wavelengths(o)
+    wp = float(o.primary_wavelength)
+    dist = rng.choice(['hexapolar', 'uniform', 'cross', 'line_y'])
+    num = {'hexapolar': rng.choice([1, 2, 3]), 'uniform': rng.choice([4, 5, 7]), 'cross': rng.choice([3, 6]), 'line_y': rng.choice([4, 9])}[dist]
+
+    def run(name, fn):
+        try:
+            r = fn()
+        except Exception as e:   # noqa   a harness failure must be seen
+            import traceback
+            r = [v(name, 'harness-error', traceback.format_exc()[-400:])]
+        if isinstance(r, tuple):
+            r = r[0]
+        cnt[name] = cnt.get(name, 0) + 1
+        out.extend(r)
+
+    run('SpotDiagram', lambda: check_spot(o, F, W, num, dist))
+    ex = explicit_lists(o, rng)
+    key = rng.choice(sorted(ex))
+    run('SpotDiagram/explicit:' + key, lambda: check_spot(o, F[-1:] + [(0.0, 0.35)], ex[key], 2, 'hexapolar'))
+    key2 = rng.choice(sorted(ex))
+    run('RayFan/explicit:' + key2, lambda: check_rayfan(o, F[:1] + [(0.0, 0.6)], ex[key2], rng.choice([4, 7])))
+    run('RayFan', lambda: check_rayfan(o, F, W, rng.choice([5, 8])))
+    run('EncircledEnergy', lambda: check_encircled(o, F, rng.choice(['primary', W[-1], 0.61]), num, dist, rng.choice([8, 17])))
+    if level > 0:
+        run('EncircledEnergy/random', lambda: check_encircled(o, F[-1:], 'primary', 60, 'random', 9))
+        key3 = rng.choice(sorted(ex))
+        run('RmsSpotSizeVsField/explicit:' + key3, lambda: check_rms_vs_field(o, 3, ex[key3], 2, 'hexapolar'))
+    run('RmsSpotSizeVsField', lambda: check_rms_vs_field(o, rng.choice([3, 4]), 'all', 2, 'hexapolar'))
+    if not spec.get('has_asphere'):
+        run('PupilAberration', lambda: check_pupil_aberration(o, F, W + ([0.61] if level > 0 else []), rng.choice([4, 7])))
+    for ty in ('f-tan', 'f-theta'):
+        run('Distortion:' + ty, lambda: check_distortion(o, 'all' if rng.random() < 0.5 else [0.61, wp], rng.choice([4, 6]), ty))
+        run('GridDistortion:' + ty, lambda: check_grid_distortion(o, rng.choice(['primary', 0.61]), rng.choice([4, 5, 6, 7]), ty))
+    run('FieldCurvature', lambda: check_field_curvature(o, 'all' if rng.random() < 0.5 else [0.61], rng.choice([3, 5])))
+    cd = [0]
+
+    def codd():
+        r, n = check_coddington(o, lambda w: lensgen.model_surfaces(o, w), 'all', 4)
+        cd[0] = n
+        return r
+    run('Coddington', codd)
+    cnt['coddington_samples'] = cd[0]
+    run('RayOperand', lambda: check_operands(o, rng, 3))
+    run('YYbar', lambda: check_yybar(o))
+    return out, cnt
